@@ -1119,6 +1119,48 @@ def m_vec_extend_iter(ci):
     if it[0] == "iter" and it[1] == "slice":
         sl = it[2]
         return vec_update(ci, lambda s: ("seq", s[1] + (("splice", sl),)))
+    grp = per_item_group(ci, ci.args[1])
+    if grp is not None:
+        # extend(iter.flat_map(|x| [f(x), g(x)])) / extend(iter.map(f)): the same group of elements for every item, in order
+        tmpl, src = grp
+        return vec_update(ci, lambda s: ("seq", s[1] + (("mapped_all", tuple(("elem", e) for e in tmpl), src),)))
+    return None
+
+
+def per_item_group(ci, it):
+    """(elements produced per item, source iterator) of a map / flat_map pipeline over one source, evaluated on the
+    source's generic item with pure single-path closures; None if it is not of that shape"""
+    site = ci.w.split(" ")[0]
+    if it[0] != "iter":
+        return None
+    if it[1] in ("slice", "copied", "cloned", "array", "chain", "once"):
+        src = it
+        while src[0] == "iter" and src[1] in ("copied", "cloned"):
+            src = src[2]
+        x = ("item", src, site)
+        if it[1] in ("copied", "cloned"):
+            x = ("proj", x, ("deref",))
+        return ([x], src)
+    if it[1] in ("map", "flat_map"):
+        inner = per_item_group(ci, it[2])
+        if inner is None:
+            return None
+        elems, src = inner
+        out = []
+        for x in elems:
+            n0 = len(ci.st.trace)
+            r = apply_closure(ci, it[3], [x])
+            if r is None or any(e[0] in ("store", "call", "write", "vecop", "fill", "panic") for e in ci.st.trace[n0:]):
+                return None
+            if it[1] == "map":
+                out.append(r)
+            elif r[0] == "array":
+                out.extend(r[1])
+            elif r[0] == "bytes":
+                out.extend(mk_int(b, "u8") for b in r[1])
+            else:
+                return None
+        return (out, src)
     return None
 
 
